@@ -20,7 +20,7 @@ def floors(tier):
     k = 1 if tier == "quick" else 8
     return {"calls_judged": 800 * k, "arity:unary_unary": 300 * k, "arity:unary_stream": 10 * k, "arity:stream_unary": 10 * k,
             "arity:stream_stream": 10 * k, "form:dict": 100 * k, "form:omitted": 100 * k, "client:async": 300 * k,
-            "foreign_request": 20 * k, "void": 20 * k}
+            "foreign_request": 20 * k, "void": 20 * k, "second_client_calls": 100 * k}
 
 
 def plan(seed, tier):
@@ -82,6 +82,8 @@ def make_calls(rng, req, model, per_rpc=2):
                         rdm.fill(rng, y, max_depth=2, skip=skip)
                     reps.append(rdm.b64(y.SerializeToString()))
                 call["replies"] = reps
+                # every third message-form call is repeated through a second client of the service on another channel
+                call["second_client"] = form == "message" and len(calls) % 3 == 0
                 calls.append(call)
     return calls
 
@@ -124,6 +126,19 @@ def run_case(case):
             viol.extend(v)
             if not v and any(len(rdm.unb64(b)) for b in call["requests"]) or call["form"] == "omitted":
                 sigs.add(f"{call['arity']}|{call['form']}|{kind}|{'foreign' if call['foreign_req'] else 'own'}|{call['kind']}|{'void' if call['void'] else 'value'}")
+            r2 = res.get(kind + "2")
+            if r2 is not None:
+                bump("second_client_calls")
+                v2 = judge(model, call, r2, ev["proxy_log"][kind + "2"])
+                if r2.get("leaked_to_first_channel"):
+                    v2.append({"clause": "call-on-another-clients-channel",
+                               "detail": f"{r2['leaked_to_first_channel']} call(s) arrived on the first client's channel"})
+                for x in v2:
+                    x["mech"] = {"arity": call["arity"], "form": call["form"], "client": kind, "kind": call["kind"], "second_client": True}
+                    x["detail"] = {"rpc": call["rpc"], "why": x["detail"], "second_client_of_service": True}
+                viol.extend(v2)
+                if not v2:
+                    sigs.add(f"second-client|{call['arity']}|{kind}")
             if sample is None and call["form"] == "message" and r.get("events"):
                 sample = {"rpc": call["rpc"], "client": kind, "server_event": {k: r["events"][0][k] for k in ("method", "requests")},
                           "returned": r.get("returned")}
@@ -193,12 +208,13 @@ def in_runner(script):
     from vlib import rt
     lib = rt.Lib(script["root_pkg"])
     srv = rt.GrpcServer()
-    logs = {"sync": [], "async": []}
-    results = [{"sync": None, "async": None} for _ in script["calls"]]
+    srv2 = rt.GrpcServer()          # the second client of each service and kind talks to this one
+    logs = {"sync": [], "async": [], "sync2": [], "async2": []}
+    results = [{"sync": None, "async": None, "sync2": None, "async2": None} for _ in script["calls"]]
     clients = {}
 
-    def prep(call):
-        srv.script("/%s/%s" % (call["full_service"], call["rpc"]), [{"payloads": call["replies"]}])
+    def prep(call, server=None):
+        (server or srv).script("/%s/%s" % (call["full_service"], call["rpc"]), [{"payloads": call["replies"]}])
         reqs = [lib.mk(call["req_type"], rt.unb64(b)) for b in call["requests"]]
         if call["form"] == "dict":
             from vlib.rdm import decode_py
@@ -235,6 +251,31 @@ def in_runner(script):
             out["error"] = rt.exc_info(e)
         out["events"] = srv.since(mark)
         results[i]["sync"] = out
+
+    # a second client of the same service in the same process, on its own channel, after the first one has been used
+    clients2 = {}
+    for i, call in enumerate(script["calls"]):
+        if not call.get("second_client"):
+            continue
+        svc = call["service"]
+        if svc not in clients2:
+            clients2[svc] = lib.grpc_client(svc, srv2.target, logs["sync2"])
+        c = clients2[svc]
+        reqs = prep(call, srv2)
+        mark, mark2 = srv.mark(), srv2.mark()
+        out = {}
+        try:
+            fn = getattr(c, call["method"])
+            if call["arity"] in ("stream_unary", "stream_stream"):
+                ret = fn(requests=iter(reqs))
+            else:
+                ret = fn(request=reqs[0])
+            out["returned"] = [list(x) for x in unwrap_sync(call, ret)]
+        except BaseException as e:  # noqa
+            out["error"] = rt.exc_info(e)
+        out["events"] = srv2.since(mark2)
+        out["leaked_to_first_channel"] = len(srv.since(mark))
+        results[i]["sync2"] = out
 
     async def amain():
         aclients = {}
@@ -276,7 +317,47 @@ def in_runner(script):
                 out["error"] = rt.exc_info(e)
             out["events"] = srv.since(mark)
             results[i]["async"] = out
+        aclients2 = {}
+        for i, call in enumerate(script["calls"]):
+            if not call.get("second_client"):
+                continue
+            svc = call["service"]
+            if svc not in aclients2:
+                aclients2[svc] = lib.aio_client(svc, srv2.target, logs["async2"])
+            c = aclients2[svc]
+            reqs = prep(call, srv2)
+            mark, mark2 = srv.mark(), srv2.mark()
+            out = {}
+            try:
+                fn = getattr(c, call["method"])
+                if call["arity"] in ("stream_unary", "stream_stream"):
+                    async def agen2(items=reqs):
+                        for x in items:
+                            yield x
+                    ret = fn(requests=agen2())
+                else:
+                    ret = fn(request=reqs[0])
+                ret, nawait = await rt.drain_awaitable(ret)
+                if call["kind"] == "lro":
+                    vals = [rt.ser(ret.operation)]
+                elif call["kind"] == "paged":
+                    first = None
+                    async for page in ret.pages:
+                        first = page
+                        break
+                    vals = [rt.ser(first)]
+                elif call["arity"] in ("unary_stream", "stream_stream"):
+                    vals = [rt.ser(x) async for x in ret]
+                else:
+                    vals = [rt.ser(ret)]
+                out["returned"] = [list(x) for x in vals]
+            except BaseException as e:  # noqa
+                out["error"] = rt.exc_info(e)
+            out["events"] = srv2.since(mark2)
+            out["leaked_to_first_channel"] = len(srv.since(mark))
+            results[i]["async2"] = out
 
     asyncio.run(amain())
     srv.stop()
+    srv2.stop()
     return {"results": results, "proxy_log": logs}
